@@ -16,6 +16,38 @@ CLAIMED = {
    note=COMMON_NOTE + "Modelled, not verified: IEEE-754/numpy elementary functions (validated per row to 1e-12 against mpmath), numpy broadcasting on the shapes used, array-valued constants excluded.",
    technique="Lean 4 proof (induction over the stack) over a model whose operator tables are regenerated from source; trace-validated against the implementation",
    design="5/C01"),
+ "C02": dict(
+   text="Lean theorems: the reverse sweep of evaluation_backend on any well-formed stack (any length, any sharing/fan-out) is simulated step by step by an abstract "
+        "reverse-mode sweep whose result equals the forward tangent (reverse_is_tangent_stack), each adjoint rule REGENERATED from operator_eval.py adds R times the true "
+        "partial (HasDerivAt, rules_are_partials), hence the returned x- and c-gradients are the true partial derivatives wherever every row is differentiable "
+        "(gradient_correct_x/_c), unused columns are exactly zero for every scalar type (unused_zero), the value equals plain evaluation (value_same). "
+        "Tie: translator + trace validation of every reverse step of the real backend + forward-mode 60-digit oracle on the real code.",
+   note=COMMON_NOTE + "Modelled: IEEE/numpy arithmetic (oracle tolerance 1e-6 of the absolute path sum). Known finding F1c (gradient exception path) listed in known_findings.json.",
+   technique="Lean 4 proof (potential-function invariant over the reverse sweep + Mathlib HasDerivAt chain rule) over rules regenerated from source; trace-validated",
+   design="5/C02"),
+ "C03": dict(
+   text="Lean theorems for reduction: get_utilized_commands marks exactly the reachable rows, reduce_stack's output has that many rows, is well-formed, fully utilized and "
+        "evaluates identically for every scalar type (reduce_eval*, unused_irrelevant*), AGraph._update's renumbering yields a backend-well-formed stack. "
+        "CAS: validated by oracle only in this round (80-digit differential evaluation on constant-free stacks incl. constants-as-variables, well-formedness, "
+        "constant count, termination watchdog) and, once the Lean port is linked, exact output correspondence; CAS soundness is NOT yet a theorem.",
+   note=COMMON_NOTE + "CAS soundness/termination are validated-only; known finding F3b (int64 wrap) in known_findings.json.",
+   technique="Lean 4 proof (loop invariants of utilized/reduce, simulation of evaluation) + exact correspondence; differential oracle for the CAS",
+   design="5/C03"),
+ "C10": dict(
+   text="Lean theorems over verbatim models of HallOfFame/ParetoFront (bisect_right included): after any sequence of updates the keys are the m smallest non-NaN keys ever "
+        "offered, sorted, ties in arrival order, never NaN (exact, sorted_stable, no_nan, update_some); the Pareto front is exactly the non-dominated set of everything "
+        "offered, an antichain, and with a symmetric similarity filter has no two similar members (pf_exact, pf_antichain, pf_no_similar). "
+        "Tie: state-by-state correspondence of random operation histories on the real classes + independent oracle.",
+   note=COMMON_NOTE + "Keys are floats embedded order-preservingly in Int (NaN = none). deepcopy is Python's.",
+   technique="Lean 4 proof (refinement to sorted-multiset / non-dominated-set specs) + history correspondence",
+   design="5/C10"),
+ "C15": dict(
+   text="Lean theorems: the island scan returns a member with minimal non-NaN key for every arrangement, NaN only if all are NaN (island_scan, island_scan_perm); the same scan over "
+        "per-island bests gives the archipelago minimum (archipelago_best); Python min()/sort are NOT NaN-safe (pymin_not_nan_safe, the defect fixed in /repo). "
+        "Tie: scripted populations on real Island/SerialArchipelago vs the model, independent oracle, predictor-island full-data fitness recomputed.",
+   note=COMMON_NOTE + "FitnessPredictorIsland clause is oracle-validated (no separate theorem beyond the scan). ParallelArchipelago's copy of the scan is exercised under C12.",
+   technique="Lean 4 proof (fold invariant, permutation invariance) + correspondence on scripted populations",
+   design="5/C15"),
 }
 
 REASONS = {p: "check not built yet in this round (planned, see DESIGN.md section 11)" for p in PROPS}
